@@ -126,6 +126,10 @@ def run(ctx: CheckContext):
                 "    def __iter__(self):\n        self._ensure_sorted()\n", "    def __iter__(self):\n", "MEMO-M2")
     run_control(ctx, "C19/replace-direct-store", analyse, p.root, sc,
                 "            self.add(stream)\n\n    def remove", "            self._streams[stream.name] = stream\n\n    def remove", "WHO")
+    run_control(ctx, "C19/add-skips-a-lookalike-member", analyse, p.root, sc,
+                "        # stream.name = key\n", "        if key in self._streams and self._streams[key] == stream:\n            return\n", "WHO-ALWAYS")
+    run_control(ctx, "C19/size-heuristic-instead-of-flag", analyse, p.root, sc,
+                "        self._streams[key] = stream\n        self._needs_sort = True\n", "        self._streams[key] = stream\n", "MEMO-M1")
     run_control(ctx, "C19/concat-drops-other", analyse, p.root, sc,
                 "        for stream in other._streams.values():\n            combined.add(stream)\n", "", "WHO-CONCAT")
     run_control(ctx, "C19/overwrite-from-outside", analyse, p.root, "OpenPinch/classes/zone.py",
